@@ -172,6 +172,7 @@ class Inliner:
         self.stack = [own_name]
         self.counter = 0
         self.n_inlined = 0
+        self.peer_names: set[str] = set()  # parameters of the caller tested by isinstance(<p>, <own class>): same helpers apply
 
     # ---- callee resolution
     def resolve(self, call: ast.Call) -> tuple[ast.FunctionDef, bool] | None:
@@ -181,7 +182,7 @@ class Inliner:
         is_method = False
         if isinstance(f, ast.Name) and f.id in self.mod_funcs:
             name, fn = f.id, self.mod_funcs[f.id]
-        elif isinstance(f, ast.Attribute) and isinstance(f.value, ast.Name) and f.attr in self.methods and (f.value.id == self.self_name or f.value.id in self.class_names):
+        elif isinstance(f, ast.Attribute) and isinstance(f.value, ast.Name) and f.attr in self.methods and (f.value.id == self.self_name or f.value.id in self.class_names or f.value.id in self.peer_names):
             name, fn = f.attr, self.methods[f.attr]
             is_static = any(isinstance(d, ast.Name) and d.id == "staticmethod" for d in fn.decorator_list)
             if f.value.id in self.class_names and not is_static:
@@ -209,7 +210,8 @@ class Inliner:
         pos = list(params)
         if is_method:
             selfp = pos.pop(0)
-            bound[selfp] = ast.Name(id=self.self_name, ctx=ast.Load())
+            recv = call.func.value.id if isinstance(call.func, ast.Attribute) and isinstance(call.func.value, ast.Name) and call.func.value.id in self.peer_names else self.self_name
+            bound[selfp] = ast.Name(id=recv, ctx=ast.Load())
         npos = [p for p in pos if p not in {a.arg for a in fn.args.kwonlyargs}]
         if len(call.args) > len(npos):
             return None
@@ -361,6 +363,9 @@ class Inliner:
                     return node
                 fn, is_method = r
                 body = [s for s in fn.body if not _is_docstring(s)]
+                if len(body) > 1 and is_method:
+                    fn, _ = propagate_aliases(fn)  # `op = self.op; return (op.a, op.b)` is a pure expression too
+                    body = [s for s in fn.body if not _is_docstring(s)]
                 if len(body) != 1 or not isinstance(body[0], ast.Return) or body[0].value is None:
                     return node
                 b = outer.bind(fn, is_method, node, caller_names)
@@ -961,6 +966,39 @@ def expand_splats(fn: ast.FunctionDef) -> tuple[ast.FunctionDef, int]:
     return new, count
 
 
+def split_tuple_compares(fn: ast.FunctionDef) -> tuple[ast.FunctionDef, int]:
+    """`(a1, a2) == (b1, b2)`  ->  `a1 == b1 and a2 == b2`;  `!=`  ->  `a1 != b1 or a2 != b2`  (literal tuples of the same
+    length whose elements are plain names / attribute chains / constants: the element comparisons run in the same order)."""
+    def cand(n: ast.AST) -> bool:
+        return (
+            isinstance(n, ast.Compare) and len(n.ops) == 1 and isinstance(n.ops[0], (ast.Eq, ast.NotEq)) and isinstance(n.left, ast.Tuple)
+            and isinstance(n.comparators[0], ast.Tuple) and len(n.left.elts) == len(n.comparators[0].elts) >= 1
+            and all(_pure_chain(e) or isinstance(e, ast.Constant) for e in n.left.elts + n.comparators[0].elts)
+        )
+
+    if not any(cand(n) for n in ast.walk(fn)):
+        return fn, 0
+    count = 0
+
+    class T(ast.NodeTransformer):
+        def visit_Compare(self, node: ast.Compare):
+            nonlocal count
+            self.generic_visit(node)
+            if not cand(node):
+                return node
+            count += 1
+            parts = [ast.Compare(left=a, ops=[type(node.ops[0])()], comparators=[b]) for a, b in zip(node.left.elts, node.comparators[0].elts)]
+            if len(parts) == 1:
+                return ast.copy_location(parts[0], node)
+            return ast.copy_location(ast.BoolOp(op=ast.And() if isinstance(node.ops[0], ast.Eq) else ast.Or(), values=parts), node)
+
+    new = copy.deepcopy(fn) if not getattr(fn, "_xsa_copy", False) else fn
+    new = T().visit(new)
+    ast.fix_missing_locations(new)
+    new._xsa_copy = True  # type: ignore[attr-defined]
+    return new, count
+
+
 def inline(fi) -> ast.AST:
     """Normalised copy of fi.raw_node: private helpers inlined, field aliases propagated (the node itself when
     nothing applies)."""
@@ -975,6 +1013,7 @@ def inline(fi) -> ast.AST:
     new, _ = update_zip_to_loop(new)
     new, _ = expand_literal_quantifiers(new, getattr(fi.module, "assigns", {}))
     new, _ = expand_splats(new)
+    new, _ = split_tuple_compares(new)
     return new
 
 
@@ -1017,6 +1056,13 @@ def _inline_helpers(fi) -> ast.AST:
         return fn
     new = copy.deepcopy(fn)
     inl = Inliner(mod_funcs, methods, class_names, selfn, fn.name)
+    if selfn is not None:
+        params = {a.arg for a in fn.args.args[1:]}
+        stored = {n.id for n in ast.walk(fn) if isinstance(n, ast.Name) and isinstance(n.ctx, (ast.Store, ast.Del))}
+        for n in ast.walk(fn):
+            if isinstance(n, ast.Call) and isinstance(n.func, ast.Name) and n.func.id == "isinstance" and len(n.args) == 2 and isinstance(n.args[0], ast.Name) and isinstance(n.args[1], ast.Name):
+                if n.args[0].id in params and n.args[0].id not in stored and n.args[1].id == fi.cls.name:
+                    inl.peer_names.add(n.args[0].id)
     names = _all_names(new) | {a.arg for a in new.args.args}
     new.body = inl.process_body(new.body, names)
     if inl.n_inlined == 0:
